@@ -25,6 +25,15 @@ Proof. repeat split; repeat constructor; unfold W64; lia. Qed.
 Lemma ex_rescale_nz : q 2 <> f0 QcOps.
 Proof. intro H. apply (f_equal (fun x => Qnum (this x))) in H. vm_compute in H. discriminate H. Qed.
 
+Lemma ex_three_nz : q 3 <> f0 QcOps.
+Proof. intro H. apply (f_equal (fun x => Qnum (this x))) in H. vm_compute in H. discriminate H. Qed.
+Lemma ex_five_nz : q 5 <> f0 QcOps.
+Proof. intro H. apply (f_equal (fun x => Qnum (this x))) in H. vm_compute in H. discriminate H. Qed.
+Lemma ex_te_valid_ord2 : te_valid QcOps (q 0, q (-3), q 0, q 3).
+Proof. cbn. split; [exact ex_three_nz | reflexivity]. Qed.
+Lemma ex_sw_order_two_affine : sw_to_affine QcOps (q (-4), q 0, q 2) = Some (q (-1), q 0).
+Proof. cbv [sw_to_affine]. cbn. f_equal. f_equal; apply Qc_is_canon; vm_compute; reflexivity. Qed.
+
 Lemma ex_te_valid : te_valid QcOps (q 0, q 3, q 0, q 3).
 Proof.
   cbn. split; [|reflexivity].
